@@ -15,7 +15,7 @@ from reference import min_image_distances
 from tensors import full_basis_tensors, same_span
 
 UNITS = ["Tables"]
-PROPS = ["props/C07.v"]
+PROPS = ["props/C07.v", "props/C07_geom.v"]
 EXTRA = ["theories/Cutoff.vo"]
 ASSUMPTIONS = ["'Niggli-reduce, wrap, 27 images' = true minimum image is NOT proved; it is compared with a brute force whose search radius is certified by |t_k| <= d |b*_k| (partial)",
                "strict '<' comparison of floating distances with the cutoff; cutoffs are placed mid-way between distinct shells"]
